@@ -154,12 +154,12 @@ def specFieldD (env : Env) (gs : List Name) (name : Name) (s : FieldSpec) : Opti
   | _, _, _, _ => none
 
 /-- the oneofs of a message that have a member, in order of their first member -/
-def specGroupNames (m : MsgP) : List Name :=
-  groupNames (m.fields.map fun f => (specGroup m f).getD none)
+def specGroupNames (full : Name) (m : MsgP) : List Name :=
+  groupNames (m.fields.map fun f => (specOf full m f).bind (·.group))
 
 /-- the `MsgD` the schema demands for message `m` (full name `full`) -/
 def specMsgD (nm : Naming) (env : Env) (full : Name) (m : MsgP) : Option MsgD :=
-  let gs := specGroupNames m
+  let gs := specGroupNames full m
   (mapMOpt (fun f => (specOf full m f).bind (specFieldD env gs (nm.fld f.name))) m.fields).map
     fun fs => { fields := fs, nGroups := gs.length }
 
